@@ -497,6 +497,15 @@ class ClassTable:
         if value is None or (isinstance(value, ast.Constant) and value.value is None):
             return None
         assert owner is not None
+        # a module-level constant naming the class(es) stands for its value
+        for _ in range(3):
+            if isinstance(value, ast.Name):
+                q0 = self.world.qualify(module_of(value), value)
+                d = self.world.lookup(q0) if q0 else None
+                if isinstance(d, (ast.Assign, ast.AnnAssign)) and d.value is not None:
+                    value = d.value
+                    continue
+            break
         elts = value.elts if isinstance(value, ast.Tuple) else [value]
         out = []
         for e in elts:
@@ -509,6 +518,14 @@ class ClassTable:
 
     def is_tuple_attr(self, cls: ClassInfo, name: str) -> bool:
         value, _ = self.class_attr(cls, name)
+        for _i in range(3):
+            if isinstance(value, ast.Name):
+                q0 = self.world.qualify(module_of(value), value)
+                d = self.world.lookup(q0) if q0 else None
+                if isinstance(d, (ast.Assign, ast.AnnAssign)) and d.value is not None:
+                    value = d.value
+                    continue
+            break
         return isinstance(value, ast.Tuple)
 
 
